@@ -115,6 +115,14 @@ type Case struct {
 	Idx     int        `json:"idx"`
 	Variant int        `json:"variant"` // concretisation variant of times (0 plain, 1 +fraction, 2 other zone)
 	Flip    *FlipPoint `json:"flip,omitempty"`
+	API     string     `json:"api,omitempty"` // "ParseResponse" | "ParseResponseForCert"
+	Rid     *Rid       `json:"rid,omitempty"`
+}
+
+// Rid: responder ID form of a response built by the harness' own encoder
+type Rid struct {
+	Kind   string `json:"kind"`   // "name" | "key"
+	Target string `json:"target"` // certificate id whose subject / key the ID points at
 }
 
 type FlipPoint struct {
@@ -134,12 +142,16 @@ type world struct {
 
 var worlds = map[[2]string]*world{}
 
-// certificate id -> subject, key role, issuer name, signing key role (OCSP.tla CertSpec)
-var certSpec = map[string][4]string{
-	"I": {"I", "KI", "I", "KI"}, "O": {"O", "KO", "O", "KO"},
-	"R": {"R", "KR", "I", "KI"}, "R2": {"R", "KR", "I", "KI"},
-	"Ro": {"R", "KR", "O", "KO"}, "Rf": {"R", "KR", "I", "KO"},
-	"Rs": {"R", "KR", "R", "KR"}, "Rx": {"X", "KX", "I", "KI"},
+// certificate id -> subject, key role, issuer name, signing key role, key role whose identifier is
+// the subjectKeyId ("-" none)  (OCSP.tla CertSpec)
+var certSpec = map[string][5]string{
+	"I": {"I", "KI", "I", "KI", "KI"}, "O": {"O", "KO", "O", "KO", "KO"},
+	"R": {"R", "KR", "I", "KI", "-"}, "R2": {"R", "KR", "I", "KI", "-"},
+	"Ro": {"R", "KR", "O", "KO", "-"}, "Rf": {"R", "KR", "I", "KO", "-"},
+	"Rs": {"R", "KR", "R", "KR", "-"}, "Rx": {"X", "KX", "I", "KI", "-"},
+	// name collisions: the issuer's subject (and subjectKeyId) on somebody else's key
+	"Rn": {"I", "KR", "I", "KR", "-"}, "Rm": {"I", "KR", "X", "KX", "-"}, "Rnx": {"I", "KR", "I", "KX", "-"},
+	"Rns": {"I", "KR", "I", "KR", "KI"}, "Rms": {"I", "KR", "X", "KX", "KI"},
 }
 
 func keyID(kt [2]string, role string) string {
@@ -179,6 +191,9 @@ func getWorld(kt [2]string) *world {
 		} else {
 			c.EKU = []string{"ocsp"}
 		}
+		if s[4] != "-" {
+			c.SKID = keyID(kt, s[4])
+		}
 		der := pki.MustBuild(c)
 		sc, err := stdx509.ParseCertificate(der)
 		if err != nil {
@@ -187,6 +202,9 @@ func getWorld(kt [2]string) *world {
 		// concretisation check: the certificate carries the abstract facts
 		if sc.Subject.CommonName != s[0] || sc.Issuer.CommonName != s[2] || !samePub(sc.PublicKey, w.keys[s[1]].Public()) {
 			obs.Fatal("world: certificate %s does not carry its abstract subject/issuer/key", id)
+		}
+		if (s[4] == "-") != (len(sc.SubjectKeyId) == 0) || (s[4] != "-" && !bytes.Equal(sc.SubjectKeyId, pki.KeyID(keyID(kt, s[4])))) {
+			obs.Fatal("world: certificate %s does not carry its abstract subjectKeyId", id)
 		}
 		for _, role := range []string{"KI", "KO", "KR", "KX"} {
 			probe := &stdx509.Certificate{PublicKey: w.keys[role].Public()}
@@ -200,6 +218,14 @@ func getWorld(kt [2]string) *world {
 			obs.Fatal("world: zcrypto cannot parse %s: %v", id, err)
 		}
 		w.std[id], w.z[id] = sc, zc
+	}
+	for _, id := range []string{"Rn", "Rm", "Rnx", "Rns", "Rms"} {
+		if !bytes.Equal(w.std[id].RawSubject, w.std["I"].RawSubject) || samePub(w.std[id].PublicKey, w.std["I"].PublicKey) {
+			obs.Fatal("world: %s is not a name collision with the issuer", id)
+		}
+	}
+	if !bytes.Equal(w.std["Rns"].SubjectKeyId, w.std["I"].SubjectKeyId) || !bytes.Equal(w.std["Rms"].SubjectKeyId, w.std["I"].SubjectKeyId) {
+		obs.Fatal("world: Rns/Rms do not carry the issuer's subjectKeyId")
 	}
 	worlds[kt] = w
 	return w
@@ -443,8 +469,13 @@ func runRoundTrip(c Case, out sink) {
 		out(finding{fmt.Sprintf("%s: CreateResponse failed on a well-formed template: %v", c.Family, err), sig, c})
 		return
 	}
-	r, perr, _ := parse(der, nil, w.z[c.SC.Verifier])
-	extra := map[string]any{"signer": c.SC.Signer, "embedded": c.SC.Embedded, "verifier": c.SC.Verifier}
+	var forCert *x509.Certificate
+	if c.API == "ParseResponseForCert" {
+		forCert, _ = leaf(w, t.Serial)
+	}
+	r, perr, _ := parse(der, forCert, w.z[c.SC.Verifier])
+	extra := map[string]any{"signer": c.SC.Signer, "embedded": c.SC.Embedded, "verifier": c.SC.Verifier,
+		"responder_is_issuer": c.SC.Responder == "I", "api": c.API}
 	if c.Family == "roundtrip" {
 		extra = map[string]any{"embedded": c.SC.Embedded, "status": t.Status, "variant": c.Variant % 3}
 	}
@@ -722,9 +753,26 @@ func pubKeyBits(c *stdx509.Certificate) []byte {
 // position p (1-based) and mark m are encoded in thisUpdate = 1000*p + m so that the harness
 // can tell which single response was returned; mark 1 = good, mark 2 = revoked
 func buildMulti(w *world, singles []Single) []byte {
+	return buildBasic(w, singles, "KI", Rid{Kind: "name", Target: "I"}, "none")
+}
+
+// buildBasic: a signed response with the given single responses, signed by the key of role
+// `signer`, with a responder ID by name or by SHA-1 key hash of certificate rid.Target, and
+// optionally one embedded certificate.
+func buildBasic(w *world, singles []Single, signer string, rid Rid, embedded string) []byte {
 	iss := w.std["I"]
 	nh, kh := sha1.Sum(iss.RawSubject), sha1.Sum(pubKeyBits(iss))
-	d := eData{RawResponderID: asn1.RawValue{Class: 2, Tag: 1, IsCompound: true, Bytes: iss.RawSubject}, ProducedAt: pki.At(5000)}
+	d := eData{ProducedAt: pki.At(5000)}
+	switch rid.Kind {
+	case "name":
+		d.RawResponderID = asn1.RawValue{Class: 2, Tag: 1, IsCompound: true, Bytes: w.std[rid.Target].RawSubject}
+	case "key":
+		x := sha1.Sum(pubKeyBits(w.std[rid.Target]))
+		oct, _ := asn1.Marshal(x[:])
+		d.RawResponderID = asn1.RawValue{Class: 2, Tag: 2, IsCompound: true, Bytes: oct}
+	default:
+		obs.Fatal("rid kind %q", rid.Kind)
+	}
 	for i, s := range singles {
 		e := eSingle{CertID: eCertID{HashAlgorithm: stdpkix.AlgorithmIdentifier{Algorithm: oidSHA1, Parameters: asn1.NullRawValue},
 			NameHash: nh[:], IssuerKeyHash: kh[:], SerialNumber: rev.IntFromContent(s.Serial)},
@@ -743,7 +791,7 @@ func buildMulti(w *world, singles []Single) []byte {
 	var alg stdpkix.AlgorithmIdentifier
 	var digest []byte
 	var h crypto.Hash
-	switch k := w.keys["KI"].Public().(type) {
+	switch k := w.keys[signer].Public().(type) {
 	case *stdrsa.PublicKey:
 		alg = stdpkix.AlgorithmIdentifier{Algorithm: oidRSASHA256, Parameters: asn1.NullRawValue}
 		x := sha256.Sum256(tbs)
@@ -759,7 +807,7 @@ func buildMulti(w *world, singles []Single) []byte {
 			digest, h = x[:], crypto.SHA256
 		}
 	}
-	sig, err := w.keys["KI"].Sign(rand.Reader, digest, h)
+	sig, err := w.keys[signer].Sign(rand.Reader, digest, h)
 	if err != nil {
 		obs.Fatal("multi: sign: %v", err)
 	}
@@ -767,8 +815,12 @@ func buildMulti(w *world, singles []Single) []byte {
 	if err != nil || len(algDER) == 0 {
 		obs.Fatal("multi: marshal algorithm identifier: %v", err)
 	}
-	inner, err := asn1.Marshal(sBasic{TBS: asn1.RawValue{FullBytes: tbs}, Alg: asn1.RawValue{FullBytes: algDER},
-		Sig: asn1.BitString{Bytes: sig, BitLength: 8 * len(sig)}})
+	sb := sBasic{TBS: asn1.RawValue{FullBytes: tbs}, Alg: asn1.RawValue{FullBytes: algDER},
+		Sig: asn1.BitString{Bytes: sig, BitLength: 8 * len(sig)}}
+	if embedded != "none" {
+		sb.Certs = []asn1.RawValue{{FullBytes: w.std[embedded].Raw}}
+	}
+	inner, err := asn1.Marshal(sb)
 	if err != nil {
 		obs.Fatal("multi: marshal basic: %v", err)
 	}
@@ -828,6 +880,38 @@ func runForCert(c Case, out sink) {
 			sig["kind"] = "wrong-single"
 			sig["later"] = got > c.Idx
 			out(finding{fmt.Sprintf("forcert: serial %x: returned single response %d (%s), specification demands the first match %d (%s)", []byte(c.Q), got, statusName(r.Status), c.Idx, wantStatus), sig, c})
+		}
+	}
+}
+
+// rid family: responder ID by name / key hash pointing at the issuer (or someone else) while the
+// signer and the embedded certificate vary; verdict from the same rule
+func runRid(c Case, out sink) {
+	w := getWorld(c.KT)
+	der := buildBasic(w, []Single{{Serial: rev.Bytes{1}, Mark: 1}}, c.SC.Signer, *c.Rid, c.SC.Embedded)
+	// the harness' encoding must be readable by an implementation that is not under test
+	if xr, xerr := xocsp.ParseResponse(der, nil); c.SC.Embedded == "none" {
+		if xerr != nil {
+			obs.Fatal("rid: x/crypto/ocsp cannot read the harness' encoding: %v", xerr)
+		}
+		tgt := w.std[c.Rid.Target]
+		x := sha1.Sum(pubKeyBits(tgt))
+		if (c.Rid.Kind == "name" && !bytes.Equal(xr.RawResponderName, tgt.RawSubject)) || (c.Rid.Kind == "key" && !bytes.Equal(xr.ResponderKeyHash, x[:])) {
+			obs.Fatal("rid: responder ID concretisation failed")
+		}
+	}
+	r, err, _ := parse(der, nil, w.z[c.SC.Verifier])
+	extra := map[string]any{"signer": c.SC.Signer, "embedded": c.SC.Embedded, "verifier": c.SC.Verifier,
+		"rid": c.Rid.Kind + ":" + c.Rid.Target}
+	judgeParsed(c, "rid", r, err, c.Verdict, nil, extra, out)
+	if err == nil {
+		tgt := w.std[c.Rid.Target]
+		x := sha1.Sum(pubKeyBits(tgt))
+		ok := (c.Rid.Kind == "name" && bytes.Equal(r.RawResponderName, tgt.RawSubject) && len(r.ResponderKeyHash) == 0) ||
+			(c.Rid.Kind == "key" && bytes.Equal(r.ResponderKeyHash, x[:]) && len(r.RawResponderName) == 0)
+		if !ok {
+			sig := map[string]any{"family": "rid", "kind": "field", "field": "responderID", "kt": c.KT[0] + c.KT[1], "rid": c.Rid.Kind}
+			out(finding{fmt.Sprintf("rid: parsed responder ID differs from the encoded one (%s:%s)", c.Rid.Kind, c.Rid.Target), sig, c})
 		}
 	}
 }
@@ -935,6 +1019,8 @@ func run(c Case, out sink) int {
 		runRequest(c, out)
 	case "forcert":
 		runForCert(c, out)
+	case "rid":
+		runRid(c, out)
 	default:
 		obs.Fatal("family %q", c.Family)
 	}
@@ -992,7 +1078,7 @@ func main() {
 		}
 		flips := 0
 		flipsBy := map[string]int{}
-		for _, fam := range []string{"roundtrip", "accept", "fault", "request", "forcert"} {
+		for _, fam := range []string{"roundtrip", "accept", "fault", "request", "forcert", "rid"} {
 			n := readCases(filepath.Join(dir, "ocsp_"+fam+".ndjson"), fam, func(c Case) {
 				k := run(c, out)
 				if fam == "fault" {
@@ -1098,7 +1184,7 @@ func record(path string, n int) {
 	w := obs.NewWriter(path)
 	kts := [][2]string{{"P", "P"}, {"P", "R"}, {"R", "P"}, {"Q", "Q"}, {"R", "R"}, {"Q", "P"}}
 	signers := []string{"KI", "KR", "KX"}
-	embedded := []string{"none", "R", "Ro", "Rf", "Rs", "Rx"}
+	embedded := []string{"none", "R", "Ro", "Rf", "Rs", "Rx", "Rn", "Rm", "Rnx", "Rns", "Rms"}
 	statuses := []string{"good", "revoked", "unknown"}
 	hashes := []string{"default", "sha1", "sha256", "sha384", "sha512"}
 	reasons := []int{0, 1, 2, 3, 4, 5, 6, 8, 9, 10}
@@ -1110,10 +1196,10 @@ func record(path string, n int) {
 		case 1:
 			sc = Scenario{Signer: "KR", Embedded: "R", Verifier: "I"}
 		default:
-			sc = Scenario{Signer: signers[rng.Intn(3)], Embedded: embedded[rng.Intn(6)], Verifier: []string{"I", "I", "O"}[rng.Intn(3)]}
+			sc = Scenario{Signer: signers[rng.Intn(3)], Embedded: embedded[rng.Intn(len(embedded))], Verifier: []string{"I", "I", "O"}[rng.Intn(3)]}
 		}
 		sc.Responder = sc.Embedded
-		if sc.Embedded == "none" {
+		if sc.Embedded == "none" || rng.Intn(4) == 0 {
 			sc.Responder = "I"
 		}
 		sl := 1 + rng.Intn(20)
